@@ -1,20 +1,22 @@
 #!/usr/bin/env python3
 """Build /verif/seeded/<Cxx>-<A|B>/ from the confirmed sub-agent outputs and record which check catches it."""
 import json, os, shutil, subprocess, sys, re
+ROOT=os.environ.get('SRC_ROOT','/root/mut_results'); SUF=os.environ.get('KEYSUF',''); PFX=os.environ.get('CONFPFX','')
 only = sys.argv[1:]
-for d in sorted(os.listdir('/root/mut_results')):
+for d in sorted(os.listdir(ROOT)):
     for m in 'AB':
-        key=f'{d}-{m}'
+        key=f'{d}-{m}{SUF}'
         if only and key not in only: continue
-        src=f'/root/mut_results/{d}'
+        src=f'{ROOT}/{d}'
         dst=f'/verif/seeded/{key}'
         os.makedirs(dst,exist_ok=True)
         shutil.copy(f'{src}/{m}.diff', f'{dst}/patch.diff')
         shutil.copy(f'{src}/{m}_demo.rs', f'{dst}/demo.rs')
         agent=json.load(open(f'{src}/{m}.json'))
-        conf=json.load(open(f'/tmp/seedchk/{key}.result.json')) if os.path.exists(f'/tmp/seedchk/{key}.result.json') else {}
+        ck=f'/tmp/seedchk/{PFX}{d}-{m}.result.json'
+        conf=json.load(open(ck)) if os.path.exists(ck) else {}
         # run the target property's quick check against the patch
-        out=subprocess.run(['/verif/tools_mutant.sh', f'{dst}/patch.diff', d],capture_output=True,text=True).stdout
+        out=subprocess.run(['/verif/tools_mutant_iso.sh', f'{dst}/patch.diff', d],capture_output=True,text=True).stdout
         mrc=re.search(r'rc=(\d+)',out)
         viol=re.search(r'violation: (.*?) VIOLATION',out,re.S)
         suite=re.findall(r'(\d+) passed; (\d+) failed',conf.get('suite_with_patch',''))
@@ -22,7 +24,7 @@ for d in sorted(os.listdir('/root/mut_results')):
           "property": d,
           "breaks": agent.get('summary',''),
           "needs_to_manifest": agent.get('needs',''),
-          "source": "independent sub-agent given only the property text and a scratch worktree of /repo",
+          "source": os.environ.get("SOURCE_NOTE","independent sub-agent given only the property text and a scratch worktree of /repo"),
           "confirmed_by_me": {
             "how": "tools_confirm_seeded.sh in a scratch worktree under /tmp (removed afterwards): git apply patch.diff; cargo build (default and --features verif); cargo test --workspace --no-fail-fast --offline; cp demo.rs tests/seeded_demo.rs; cargo test --test seeded_demo; git checkout; demo again",
             "build_default_rc": conf.get('build_default_rc'), "build_verif_rc": conf.get('build_verif_rc'),
